@@ -423,6 +423,29 @@ def nested_handover():  # noqa: ANN201
                                                  "fam:nested_handover")  # fmt: skip
 
 
+def shielded_checkpoint_window():  # noqa: ANN201
+    """a task sits in cancel_shielded_checkpoint() while its scope, or an ancestor of it, gets
+    cancelled by somebody else at every cycle around it: the yield is never interrupted, the
+    cancellation arrives at the next ordinary checkpoint"""
+    for cfg in CFGS:
+        for lead in (0, 1, 2):
+            for n in (1, 2, 3):
+                for target in ("s1", "s0"):
+                    for at in range(0, lead + n + 3):
+                        for place in ("before", "after"):
+                            for in_child in (False, True):
+                                body: list = [["scope", "s0", False, None, [
+                                    ["scope", "s1", False, None, [["cp", lead], ["scp", n], ["cp", 2]]],
+                                    ["cp", 1]]]]  # fmt: skip
+                                if in_child:
+                                    child = {"tid": 1, "how": "start_soon", "body": body}
+                                    body = [["group", 1, [child], [["cp", 1]]]]
+
+                                yield _p(cfg, body + [["cp", 2]],
+                                         [{"at": at, "place": place, "do": ["cancel", target]}],
+                                         "fam:shielded_checkpoint_window")  # fmt: skip
+
+
 def held_request_handover():  # noqa: ANN201
     """the host of a task group holds 1-2 native cancellation requests (non-zero
     Task.cancelling() baseline); a child's own scope cancels itself and cannot absorb because
